@@ -5,7 +5,7 @@ import os
 import sys
 import traceback
 
-from .loader import World, AnalysisError
+from .loader import World, AnalysisError, ImportRaises
 from .report import Ctx, finish
 
 PROPS = {  # id -> (module, level)
@@ -49,6 +49,11 @@ def run_one(pid, tier, only=None):
             from . import selftest
             rc = selftest.sensitivity(pid, ctx)
         return rc
+    except ImportRaises as e:
+        # the package cannot be imported: whatever the property promises, no call can deliver it
+        ctx.min_obligations = 0
+        ctx.ob("IMPORT", "import spake2", False, "the package cannot be imported - %s" % e, e.site)
+        return finish(ctx, seed=int(os.environ.get("VERIF_SEED", "0") or 0))
     except AnalysisError as e:
         print("ANALYSIS-ERROR property=%s %s" % (pid, e))
         if any(not o.ok for o in ctx.obs):
